@@ -75,7 +75,12 @@ Ret == /\ IsEvent("ret")
        /\ pending' = FnDel(pending, E.conn)
        /\ UNCHANGED <<store, cfg>>
 
-Next == Reset \/ Call \/ Ret \/ \E conn \in DOMAIN pending : Lin(conn)
+(* summary of one client thread of the concurrency stress: every request was answered well-framed *)
+Stress == /\ IsEvent("stress")
+          /\ E.answered = E.requests
+          /\ UNCHANGED <<store, pending, cfg>>
+
+Next == Reset \/ Call \/ Ret \/ Stress \/ \E conn \in DOMAIN pending : Lin(conn)
 Spec == Init /\ [][Next]_vars
 
 Mark == TLCSet(2, IF l > TLCGet(2) THEN l ELSE TLCGet(2))
